@@ -176,8 +176,8 @@ Example rw_readers_share :
 Proof. split; [eexists; vm_compute; split; reflexivity|]. vm_compute. auto. Qed.
 
 (* ---------------------------------------------------------------------------------------------------------- *)
-(* 2.  The access table: every operation the property names (all rows except the caller-synchronised writers
-   sm4.SetIV, x509.ContentEncryptionAlgorithm and CertPool construction), SetSessionTicketKeys at ANY time - also
+(* 2.  The access table: every operation the property names (all rows except the caller-synchronised writers:
+   assignments to x509.ContentEncryptionAlgorithm, CertPool construction, configuration set-up; sm4.SetIV IS included), SetSessionTicketKeys at ANY time - also
    while the first handshake or Clone is initialising the Config - included. *)
 Definition C20_access_table_full : Prop :=
   forall threads : list (list op),
@@ -200,11 +200,11 @@ Proof.
 Qed.
 Print Assumptions gmsm_claimed_operations_serializable.
 
-(* the table distinguishes: caller-synchronised globals and pool construction are not compatible with their readers,
+(* the table distinguishes: the caller-synchronised selector and pool construction are not compatible with their readers,
    an unlocked write of the ticket keys (what serverInit did before 43260b6) is not compatible with rotation,
    protected pairs are (non-vacuity of the check in both directions) *)
 Example table_rejects_unsynchronised_writers :
-  ops_ok [sm4_set_iv; sm4_helper_iv] = false /\ ops_ok [x509_set_cea; x509_pkcs7_encrypt] = false
+  ops_ok [sm4_set_iv; sm4_helper_iv] = true /\ ops_ok [x509_set_cea; x509_pkcs7_encrypt] = false
   /\ ops_ok [certpool_add; cert_verify] = false
   /\ ops_ok [lru_put; lru_get; conn_read; conn_write; conn_close] = true
   /\ ops_ok [config_first_use; config_set_ticket_keys; config_clone; config_ticket_keys] = true
@@ -214,6 +214,24 @@ Example table_rejects_unsynchronised_writers :
   /\ pair_ok2 (annot [] (locked Excl M_in [wr L_conn_out])) (annot [] (code conn_read)) = true     (* Read sends alerts holding c.in AND c.out *)
   /\ pair_ok2 (annot [] (locked Excl M_in [wr L_conn_out])) (annot [] (code conn_write)) = false.
 Proof. vm_compute. auto 12. Qed.
+
+(* Writers of package-level state.  sm4.SetIV is claimed since /repo 0fa6cb9 (before, it wrote sm4.IV with no
+   synchronisation while Sm4Cbc / Sm4CFB / Sm4OFB read it: found by scenario sm4_iv_set, D51): the translator finds
+   exactly one write of sm4.SetIV - sm4.IV under sm4.ivMu -, the table row is that write, it is race-free against the
+   helpers and against itself in the model, and the unsynchronised write of the old code is refused both by the model
+   and by the source tie.  An assignment to the exported variable x509.ContentEncryptionAlgorithm (there is no setter)
+   against PKCS7Encrypt reading it is NOT race-free - that row stays outside the claim; the readers among themselves are. *)
+Theorem package_state_writers :
+  ops_ok [sm4_set_iv; sm4_helper_iv; sm4_helper_ecb; sm4_gcm_helper] = true
+  /\ ex_setiv_only_writes_iv = true
+  /\ covered [sm4_set_iv] ex_w_iv = true
+  /\ covered [sm4_set_iv] ex_w_iv_unlocked = false
+  /\ pair_ok2 (annot [] [wr L_sm4_IV]) (annot [] (code sm4_helper_iv)) = false
+  /\ pair_ok2 (annot [] (code sm4_set_iv)) (annot [] [rd L_sm4_IV]) = false
+  /\ ops_ok [x509_set_cea; x509_pkcs7_encrypt] = false
+  /\ ops_ok [x509_pkcs7_encrypt; x509_parse_pkcs7; pkcs12_codec; sm2_key_exchange] = true.
+Proof. vm_compute. auto 10. Qed.
+Print Assumptions package_state_writers.
 
 (* 2b.  Static tie between the table and the CURRENT source (Conc/SourceTie.v; Gen/ConcWriteSets.v is regenerated from
    the source on every run): every write to shared state that the translator finds reachable from an exported entry
